@@ -12,13 +12,13 @@ def parse_suite(name, nq, nt):
 
 
 SUITES = {
-    "PARSE-SEP": parse_suite("sep", 5, 6),
+    "PARSE-SEP": parse_suite("sep", 5, 7),
     "PARSE-PATH": parse_suite("path", 3, 4),
-    "PARSE-QUAL": parse_suite("qual", 3, 4),
-    "PARSE-TYPED": parse_suite("typed", 3, 4),
-    "PARSE-NS": parse_suite("nsseg", 3, 4),
-    "PARSE-SUB": parse_suite("subseg", 3, 4),
-    "PARSE-QUALS2": parse_suite("quals2", 4, 5),
+    "PARSE-QUAL": parse_suite("qual", 3, 5),
+    "PARSE-TYPED": parse_suite("typed", 3, 5),
+    "PARSE-NS": parse_suite("nsseg", 3, 5),
+    "PARSE-SUB": parse_suite("subseg", 3, 5),
+    "PARSE-QUALS2": parse_suite("quals2", 4, 6),
 }
 
 FORMAT_INVS = ["C09_BuildOk", "C03_Render", "C09_ParseBack", "C04_Valid", "Emit"]
